@@ -226,9 +226,13 @@ func Run(spec Spec, opt Options) *Result {
 		}
 		// tell apart "the harness is not deterministic" from "an execution that was thrown away influenced a later one":
 		// a third world takes the forward order again; if it agrees with the first, the order is what matters
+		// (a spec owns its latest world: the search below gets a fresh one afterwards)
 		third := spec.Init()
 		third.spec = spec
-		if fp3 := e.firstLevel(third, false); strings.Join(fp1, "\n") == strings.Join(fp3, "\n") {
+		fp3 := e.firstLevel(third, false)
+		root = spec.Init()
+		root.spec = spec
+		if strings.Join(fp1, "\n") == strings.Join(fp3, "\n") {
 			res.DeterminismOK = true
 			v := Violation{Oracle: "discarded-execution-leaves-no-trace", Signature: IsolationSignature,
 				Detail: "the same operation on the same state gives different results depending on which other operations were executed before it on branches that were thrown away (state kept outside the store): " + res.DeterminismDiff,
